@@ -116,7 +116,7 @@ theorem invD_step {c s e s'} (hA : InvA c s) (hC : InvC c s) (h : InvD c s) (hq 
   | cancelOne i => exact absurd rfl (hq.2 i)
   | finish i r => simp only [step] at hs; split at hs <;> cases hs; exact invD_frame h rfl rfl rfl rfl rfl
   | «begin» i => simp only [step] at hs; split at hs <;> cases hs; exact invD_frame h rfl rfl rfl rfl rfl
-  | abort i => simp only [step] at hs; split at hs <;> cases hs; exact invD_frame h rfl rfl rfl rfl rfl
+  | abort i t => simp only [step] at hs; split at hs <;> cases hs; exact invD_frame h rfl rfl rfl rfl rfl
   | tick =>
     simp only [step] at hs; split at hs
     · cases hs; exact invD_frame h (by simp) (by simp) (by simp) (by simp) (by simp)
@@ -144,7 +144,7 @@ theorem invD_step {c s e s'} (hA : InvA c s) (hC : InvC c s) (h : InvD c s) (hq 
         rw [hch] at hs
         simp only [Option.some.injEq] at hs
         rw [← hs] at hC' ⊢
-        by_cases hT : c.hasTerm = true ∧ r = .term
+        by_cases hT : isTerminal c s i r = true
         · rw [recvStep_term c s i r rest hT]
           exact invD_of_err rfl
         · by_cases hr : r = .ok
@@ -210,7 +210,7 @@ theorem step_parentCanc_quiet {c : Cfg} {s s' : St} {e : Ev} (hq : QuietEv e) (h
   | cancelOne i => exact absurd rfl (hq.2 i)
   | finish i r => simp only [step] at hs; split at hs <;> cases hs; rfl
   | «begin» i => simp only [step] at hs; split at hs <;> cases hs; rfl
-  | abort i => simp only [step] at hs; split at hs <;> cases hs; rfl
+  | abort i t => simp only [step] at hs; split at hs <;> cases hs; rfl
   | tick => simp only [step] at hs; split at hs
             · cases hs; simp
             · cases hs
@@ -281,7 +281,7 @@ theorem all_contexts_cancelled {c order pre evs s rs} (hr : run c (init c order 
           | nil => rw [hch] at hs; cases hs
           | cons p rest =>
             obtain ⟨j, r⟩ := p; rw [hch] at hs; cases hs
-            by_cases hT : c.hasTerm = true ∧ r = .term
+            by_cases hT : isTerminal c s j r = true
             · rw [recvStep_term c s j r rest hT] at hm'; cases hm'
             · by_cases hrk : r = .ok
               · subst hrk
